@@ -68,7 +68,8 @@ impl<'a> FieldsGen<'a> {
                 match *__item {
                     ::darling::export::NestedMeta::Meta(ref __inner) => {
                         let __name = ::darling::util::path_to_string(__inner.path());
-                        match __name.as_str() {
+                        // A keyword can only be written as a raw identifier: `r#type` names `type`.
+                        match __name.strip_prefix("r#").unwrap_or(__name.as_str()) {
                             #(#arms)*
                             __other => { #handle_unknown }
                         }
